@@ -264,14 +264,15 @@ Section Shows.
     apply andb_true_iff in Hn. destruct Hn as [Hex Hn]. subst ex. simpl. auto 8 with cont.
   Qed.
 
-  Lemma conf_shows : forall sh s, no_unexported sh = true -> no_array sh = true ->
+  Lemma conf_shows : forall sh s, no_unexported sh = true -> no_key2 sh = true ->
     exists t, conf_tree M sh s = COk t /\ contains (m_MarshalText M s) (canon t).
   Proof.
-    induction sh as [|i IH|ex i IH|i IH|i IH|i IH| | |i IH|i IH]; intros s Hn Ha; cbn [conf_tree no_unexported no_array] in *;
+    induction sh as [|i IH|ex i IH|i IH|i IH|i IH| | |i IH|i IH]; intros s Hn Ha; cbn [conf_tree no_unexported no_key2] in *;
       try discriminate; try (now apply IH).
     - eexists; split; [reflexivity|]. simpl. auto 8 with cont.
     - apply andb_true_iff in Hn. destruct Hn as [Hex Hn]. subst ex.
       destruct (IH s Hn Ha) as [t [E C]]. rewrite E. eexists; split; [reflexivity|]. simpl. auto 8 with cont.
+    - destruct (IH s Hn Ha) as [t [E C]]. rewrite E. eexists; split; [reflexivity|]. simpl. auto 8 with cont.
     - destruct (IH s Hn Ha) as [t [E C]]. rewrite E. eexists; split; [reflexivity|]. simpl. auto 8 with cont.
     - destruct (IH s Hn Ha) as [t [E C]]. rewrite E. eexists; split; [reflexivity|]. simpl. auto 8 with cont.
     - eexists; split; [reflexivity|]. simpl. auto 8 with cont.
@@ -434,8 +435,32 @@ Proof. intros s. vm_compute. repeat (rewrite ?sapp_assoc; simpl). reflexivity. Q
 
 (* an array is left in the configuration map as a typed value: the marker is not rendered there *)
 Lemma confmap_array_l : forall s,
-  render opaque PConfmap (SField true (SArray SBare)) s = "{f:<raw [1]configopaque.String>}".
+  render opaque PConfmap (SField true (SArray SBare)) s = "{f:[" ++ dquote ++ "[REDACTED]" ++ dquote ++ "]}".
 Proof. intros s. reflexivity. Qed.
+
+(* nothing typed is left in the configuration map: every leaf is a plain string *)
+Fixpoint no_raw (t : tree) : bool :=
+  match t with
+  | TStr _ => true
+  | TRaw _ => false
+  | TMap l => (fix go (l : list (string * tree)) : bool := match l with [] => true | (_, v) :: r => no_raw v && go r end) l
+  | TList l => (fix go (l : list tree) : bool := match l with [] => true | v :: r => no_raw v && go r end) l
+  end.
+
+Lemma conf_no_typed_leaf_l : forall M sh s t, conf_tree M sh s = COk t -> no_raw t = true.
+Proof.
+  intros M. induction sh as [|i IH|ex i IH|i IH|i IH|i IH| | |i IH|i IH]; intros s t E; cbn [conf_tree] in E;
+    try (now apply (IH s t E)).
+  - inversion E. reflexivity.
+  - destruct ex; [destruct (conf_tree M i s) as [t'|] eqn:E'; simpl in E; inversion E; simpl;
+                  now rewrite (IH s t' E')|inversion E; reflexivity].
+  - destruct (conf_tree M i s) as [t'|] eqn:E'; simpl in E; inversion E. simpl. now rewrite (IH s t' E').
+  - destruct (conf_tree M i s) as [t'|] eqn:E'; simpl in E; inversion E. simpl. now rewrite (IH s t' E').
+  - destruct (conf_tree M i s) as [t'|] eqn:E'; simpl in E; inversion E. simpl. now rewrite (IH s t' E').
+  - inversion E. reflexivity.
+  - destruct (String.eqb (m_MarshalText M s) (m_MarshalText M (second s))); inversion E. reflexivity.
+  - destruct (conf_tree M i s) as [t'|] eqn:E'; simpl in E; inversion E. simpl. now rewrite (IH s t' E').
+Qed.
 
 (* a nested Marshaler's typed content (a value, a headers map, a slice) comes out redacted *)
 Lemma confmap_marshaler_l : forall s,
@@ -449,26 +474,27 @@ Lemma ni_refuted_l : exists p sh s1 s2, p <> PCast /\ render opaque p sh s1 <> r
 Proof. exists (PFmt "d" no_flags), SBare, "a", "b". split; [discriminate|]. vm_compute. discriminate. Qed.
 
 (* ---- decoding -------------------------------------------------------------------------------- *)
-Definition plain_ctx (u : uctx) : bool :=
-  match u with
-  | UConfSquashUnmarshaler | UExpInline | UExpPtr YNull | UExpPtr YOther => false
-  | _ => true
-  end.
-
 Lemma unmarshal_partial_l : forall M u t, plain_ctx u = true -> unmarshal M u t = Stored t.
-Proof. intros M u t H. destruct u as [| | | | | | | | | |[| |]]; try reflexivity; discriminate. Qed.
+Proof.
+  intros M u t. induction u as [| | | | | | | | | |c|u IH]; intros H; try reflexivity; try discriminate.
+  - destruct c; try reflexivity; discriminate.
+  - simpl in *. now apply IH.
+Qed.
 
 Lemma unmarshal_inline_l : forall M t, unmarshal M UExpInline t = Stored ("pre-" ++ t ++ "-post").
 Proof. reflexivity. Qed.
 
-Lemma unmarshal_squash_l : forall t, unmarshal opaque UConfSquashUnmarshaler t = Stored marker.
-Proof. intros t. reflexivity. Qed.
+Lemma unmarshal_squash_l : forall M t, unmarshal M UConfSquashUnmarshaler t = Stored t.
+Proof. intros M t. reflexivity. Qed.
 
 Lemma unmarshal_ptr_l : forall M t, unmarshal M (UExpPtr YNull) t = NilPtr /\ unmarshal M (UExpPtr YOther) t = DecodeError.
 Proof. intros; split; reflexivity. Qed.
 
-Lemma unmarshal_refuted_l : exists u t, u <> UExpInline /\ unmarshal opaque u t <> Stored t.
-Proof. exists UConfSquashUnmarshaler, "secret". split; [discriminate|]. vm_compute. discriminate. Qed.
+Lemma unmarshal_refuted_l : exists u t, is_inline u = false /\ unmarshal opaque u t <> Stored t.
+Proof. exists (UExpPtr YOther), "987654321". split; [reflexivity|]. vm_compute. discriminate. Qed.
+
+Lemma unmarshal_sub_l : forall M u t, unmarshal M (UViaSub u) t = unmarshal M u t /\ plain_ctx (UViaSub u) = plain_ctx u.
+Proof. intros; split; reflexivity. Qed.
 
 (* ---- use ----------------------------------------------------------------------------------------- *)
 Lemma use_identity_l : forall c s, use c s = s.
